@@ -397,9 +397,7 @@ func (r *c09Rig) run(plan c09Plan, tag string) c09Outcome {
 	atomic.StoreInt32(&r.stop, 1)
 	bgDone := make(chan struct{})
 	go func() { bg.Wait(); close(bgDone) }()
-	select {
-	case <-bgDone:
-	case <-time.After(30 * time.Second):
+	if _, ok := patientRecv(bgDone, 30*time.Second); !ok {
 		setFail("the goroutines exercising the buffer pool, the transport table and the resolver did not finish within 30 s after being told to stop: one of them is wedged inside a product call (deadlock)")
 		return out
 	}
